@@ -3,7 +3,7 @@
    Byte strings are lists of Z; every theorem quantifies over ALL strings (and all schemas / keywords where they occur).
    What is NOT proved is listed in props/C09/meta.json (crash- and hang-freedom of the C++ is exploration only). *)
 From Coq Require Import ZArith List Bool Arith Lia.
-From CV Require Import C09.ParseModel C09.ParseProofs C09.NumProofs C09.LookupProofs C09.FlatProofs C09.ValueProofs C09.OrigProofs C09.ComposedProofs.
+From CV Require Import C09.ParseModel C09.ParseProofs C09.NumProofs C09.LookupProofs C09.FlatProofs C09.ValueProofs C09.OrigProofs C09.NestedProofs C09.ComposedProofs.
 Import ListNotations.
 Local Open Scope Z_scope.
 
@@ -74,6 +74,19 @@ Theorem C09_comments_and_line_ends :
   (forall s, ~ In HASH (strip_comments s)).
 Proof. exact comments_and_line_ends. Qed.
 Print Assumptions C09_comments_and_line_ends.
+
+(* whole configurations: CRLF for LF, a comment appended to a line, a blank or comment-only line inserted, the
+   final newline -- each leaves the WHOLE result (accept/reject and every value, flat and nested client) unchanged *)
+Theorem C09_whole_configuration_raw_layout :
+  (forall p l q, ends_lf p -> no_lf l -> not_ending_cr l ->
+     same_result (p ++ l ++ CR :: LF :: q) (p ++ l ++ LF :: q)) /\
+  (forall p l c q, ends_lf p -> no_lf l -> no_lf c -> not_ending_cr l ->
+     same_result (p ++ l ++ HASH :: c ++ LF :: q) (p ++ l ++ LF :: q)) /\
+  (forall p w q, ends_lf p -> no_lf w -> all_ws (clean_line w) ->
+     same_result (p ++ w ++ LF :: q) (p ++ q)) /\
+  (forall p l, ends_lf p -> no_lf l -> l <> [] -> same_result (p ++ l) (p ++ l ++ [LF])).
+Proof. exact whole_configuration_raw_layout. Qed.
+Print Assumptions C09_whole_configuration_raw_layout.
 
 (* ---------------------------------------------------------------- key_lookup *)
 
@@ -161,6 +174,28 @@ Theorem C09_value_range_exact : forall fuel conf key pos p data sp b e,
   substr conf b (e - b) = data /\ (e = b + length data)%nat /\ data <> [].
 Proof. exact extract_value_reg_exact. Qed.
 Print Assumptions C09_value_range_exact.
+
+(* nested blocks (colvar > component > atom group ...): acceptance of a level means (1) its own text, with values
+   and sub-blocks erased, has only blank lines and lines beginning with a keyword of THIS level, and (2) every
+   sub-block found is non-empty and accepted by the keywords of ITS level -- so, applying the theorem again to each
+   sub-block, an unknown keyword is refused at every depth *)
+Theorem C09_nested_unknown_keyword_rejected : forall strict items conf, nparse strict items conf = true ->
+  (forall l, In l (split_lines (strip_values conf (level_registry strict items conf))) ->
+             blank_line l \/ starts_with_keyword (level_keywords strict items conf) l) /\
+  (forall key sub d, In (NBlock key sub) items -> In d (ksv_all (key_string_values conf key)) ->
+             d <> [] /\ nparse strict sub d = true).
+Proof. exact nparse_accept_unfold. Qed.
+Print Assumptions C09_nested_unknown_keyword_rejected.
+
+(* the same on the original text of a level, and: the text handed to a sub-block is the piece of the parent's text
+   at one of the ranges the parent erases *)
+Theorem C09_nested_unknown_keyword_original :
+  (forall strict items A L B, nparse strict items (A ++ L ++ B) = true ->
+     line_untouched (level_registry strict items (A ++ L ++ B)) A L B ->
+     blank_line L \/ starts_with_keyword (map (fun it => to_lower (item_key it)) items) L) /\
+  (forall conf key, blocks_are_pieces conf (key_string_values conf key)).
+Proof. split; [exact nparse_unknown_keyword_original|exact blocks_are_pieces_of_parent]. Qed.
+Print Assumptions C09_nested_unknown_keyword_original.
 
 (* ---------------------------------------------------------------- values: strictness *)
 
